@@ -42,7 +42,9 @@ def get_parser():
 
 
 def new_codegen(kind):
-    from pysmi.codegen import JsonCodeGen, PySnmpCodeGen
+    from pysmi.codegen import JsonCodeGen, NullCodeGen, PySnmpCodeGen
+    if kind == 'null':
+        return NullCodeGen()        # what mibdump sets up for --destination-format=null: no text, an anonymous summary
     return JsonCodeGen() if kind == 'json' else PySnmpCodeGen()
 
 
@@ -905,7 +907,7 @@ def gen_world(rng, tier, focus='C07'):
         pdef = 0.0
     specs = mibgen.gen_modules(rng, n, cycles=True, defects=pdef, smiv1=0.1, oiddefval=0.2, shadow=0.1)
     names = list(specs)
-    scn = {'modules': specs, 'codegen': 'pysnmp' if rng.random() < 0.04 else 'json', 'files': {}}
+    scn = {'modules': specs, 'codegen': rng.choice(['pysnmp', 'pysnmp', 'null']) if rng.random() < 0.06 else 'json', 'files': {}}
     # several modules in one file
     if n >= 2 and rng.random() < 0.18:
         k_ = 3 if n >= 3 and rng.random() < 0.4 else 2
